@@ -204,15 +204,20 @@ def h_validate(ctx):
     kinds = [ADAS[ctx.choice(f"ada{k}", 1 if src_kind == "static" else len(ADAS))] for k in range(n)]
     fan = ctx.choice("fanout_at", n + 2)  # n+1 = no fan-out; p <= n: element p (0 = the output) gets a 2nd target
     fan = None if fan == n + 1 else fan
-    missing = ["none", "source", "sink"][ctx.choice("missing", 3)]
+    missing = ["none", "source", "sink", "sink2"][ctx.choice("missing", 4)]
+    if missing == "sink2" and fan is None:
+        ctx.cut("no second branch")
+    order = ctx.choice("listing", 3)  # 0: source first, 1: sinks first, 2: sink, source, sink2
     dangling = ctx.flag("unconnected_extra_input")
     src = {"time": TimeSrc, "pull": PullSrc, "static": StaticSrc}[src_kind]()
     sink = Sink(sink_kind, n_inputs=2 if dangling else 1)
     sink2 = Sink("pull") if fan is not None else None
-    comps = [c for c in (src if missing != "source" else None, sink if missing != "sink" else None, sink2) if c]
+    cand = {0: [src, sink, sink2], 1: [sink, sink2, src], 2: [sink, src, sink2]}[order]
+    drop = {"none": None, "source": src, "sink": sink, "sink2": sink2}[missing]
+    comps = [c for c in cand if c is not None and c is not drop]
     composition = hlib.make_composition(comps)
-    for c in (src, sink):
-        if c not in comps:
+    for c in (src, sink, sink2):
+        if c is not None and c not in comps:
             c.initialize()
     elems = [src.outputs["o"]]
     for k in kinds:
@@ -260,7 +265,8 @@ def h_validate(ctx):
         except Exception as e:  # pylint: disable=broad-except
             outcome = "other:" + type(e).__name__
             ctx.log("err", str(e)[:200])
-    sig = f"src={src_kind}:sink={sink_kind}:chain={'+'.join(kinds)}:fan={fan}:missing={missing}:dangling={dangling}"
+    sig = (f"src={src_kind}:sink={sink_kind}:chain={'+'.join(kinds)}:fan={fan}:missing={missing}:dangling={dangling}"
+           f":listing={order}")
     ctx.log("outcome", outcome)
     ctx.cover(outcome.split(":")[0])
     if reasons:
